@@ -80,6 +80,10 @@ func (p *SliceLossIndication) Unmarshal(rawPacket []byte) error {
 		return errWrongType
 	}
 
+	if 4*h.Length < sliOffset {
+		return errBadLength
+	}
+
 	p.SenderSSRC = binary.BigEndian.Uint32(rawPacket[headerLength:])
 	p.MediaSSRC = binary.BigEndian.Uint32(rawPacket[headerLength+ssrcLength:])
 	for i := headerLength + sliOffset; i < (headerLength + int(h.Length*4)); i += 4 {
